@@ -164,7 +164,9 @@ def gen_test(rng, tid, tok, kind=None, p_write=0.3):
         rng.choice([t["setUp"], t["body"], t["tearDown"]])["close"] = which
     if rng.random() < 0.12:
         # test names need not be plain ASCII: accents, a lone surrogate (only backslashreplace can write it), tabs
-        t["label"] = rng.choice(["caf\u00e9", "\udc80sur", "snow\u2603man", "tab\there", "q\"uote", "\U0001f600"])
+        # ... and need not fit on a line of the terminal (deep packages, descriptive method names, parameters)
+        t["label"] = rng.choice(["caf\u00e9", "\udc80sur", "snow\u2603man", "tab\there", "q\"uote", "\U0001f600",
+                                 "a_descriptive_name_that_says_what_is_tested_" * 3, "p" * 200 + " end"])
     return t
 
 
@@ -320,6 +322,10 @@ def gen_opts(rng, allow=("repeat", "stop", "buffer", "j", "verbose", "shuffle"))
         o["decor"] = [g for g in o["decor"] if g not in diffs[1:]]
         if rng.random() < 0.3:
             o["color"] = True       # (--color: the escape sequences are taken out of the output before it is read)
+    if rng.random() < 0.1:
+        # XML reports besides the console output: nothing the properties speak about changes (in particular the
+        # standard streams are not captured unless --buffer says so)
+        o["xml"] = "xml-reports"
     return o
 
 
@@ -437,7 +443,22 @@ NEUTRAL_OPTIONS = [["--no-color"], ["-C"], ["--auto-color"], ["--no-progress"], 
 # -------------------------------------------------------------------------------------------
 # materialise and run
 
+def normalise(world):
+    """generator hygiene, applied to every world before it is written out (and hence before the model sees it): a test
+    that closes the stream it finds as sys.stdout / sys.stderr writes nothing itself - writing to a stream one has
+    closed is an error of the test's own, which no outcome script accounts for.  (The checks compose worlds from several
+    generators: one adds `close`, another adds writes later; thorough runs with seed 11 and a quick run with seed 3
+    raised three false alarms of this shape.)"""
+    for t in world.get("tests", []):
+        parts = [t["setUp"], t["body"], t["tearDown"]] + list(t.get("subs", [])) + list(t.get("cleanups", []))
+        if any(p.get("close") for p in parts) and any(p.get("writes") or p.get("stderr_text") or p.get("rawbytes")
+                                                      for p in parts):
+            for p in parts:
+                p.pop("close", None)
+
+
 def materialize(world, d):
+    normalise(world)
     os.makedirs(d, exist_ok=True)
     shutil.copy(TEMPLATE, os.path.join(d, "wrt.py"))
     with open(os.path.join(d, "world.json"), "w") as f:
